@@ -1189,9 +1189,10 @@ class Simulation:
 
             # Get weights, calculate misfit.
             weights = self.data['weights']
-            self._misfit = np.sum(weights*(residual.conj()*residual)).real/2
+            self._misfit = float(
+                np.sum(weights*(residual.conj()*residual)).real/2)
 
-        return self._misfit.data
+        return self._misfit
 
     def _ensure_efields(self):
         """Re-compute the electric fields if they are not available.
